@@ -714,14 +714,20 @@ class Gen:
     r = self.r
     body = ('and', props)
     scal = {v: t for v, t in bound.items()}
+    given_sig = sig is not None
     if sig is None:
       distinct = self.p('distinct') or self.p('aggregation')
       agg = distinct and self.p('aggregation')
       ncols = r.choice([1, 2, 2, 3])
       cols = []
       named_ok = self.p('named_cols')
+      two_named = named_ok and ncols >= 2 and r.random() < 0.4     # the last two columns are named
       for i in range(ncols):
         f = i if not (named_ok and i == ncols - 1 and r.random() < 0.6) else r.choice(['out', 'z', 'val'])
+        if two_named and i == ncols - 2:
+          f = 'key'
+        if two_named and i == ncols - 1:
+          f = r.choice(['out', 'z', 'val'])
         vs = list(scal.items())
         if not vs:
           return None
@@ -767,6 +773,13 @@ class Gen:
         head.append((f, ('agg', op, e)))
     if bagcols:
       sig = dict(sig, bagcols=set(sig.get('bagcols', ())) | bagcols)
+    if given_sig and not sig['distinct'] and r.random() < 0.6:
+      # a later rule of the predicate writes its named columns in another order
+      named = [h for h in head if isinstance(h[0], str) and h[0] != 'logica_value']
+      if len(named) >= 2:
+        r.shuffle(named)
+        it = iter(named)
+        head = [next(it) if isinstance(h[0], str) and h[0] != 'logica_value' else h for h in head]
     return {'head': head, 'distinct': sig['distinct'], 'body': body, 'sig': sig}
 
   def gen_table_func(self, name):
